@@ -12,6 +12,8 @@
 //                    extremes ...}: only GeographicErr (validating functions) / bad_alloc,
 //                    outputs untouched after a throw, no sanitizer report, CPU watchdog
 //   special_multi    several arguments special at once
+//   nan_marker       every string encoder with a documented INVALID marker: NaN in each coordinate
+//                    position returns the marker WITHOUT any exception and the marker decodes back to NaN
 //   throw_outputs    every validating function driven just outside each documented limit with
 //                    sentinel-filled outputs: after the throw all outputs bit-identical [monitor c]
 #include "fuzz/C13_newlimit.hpp"
@@ -85,6 +87,90 @@ std::string nan_regime(const Entry& e, int ai, size_t k) {
   if (n == "AuxLatitude::ToAuxiliary" && (ai == 1 || ai == 2) && k == 2)
     return "nan:C13/dependent-output-not-nan/AuxLatitude::ToAuxiliary(nan-angle)/diff";
   return "";
+}
+
+// ---- documented INVALID markers: every string-producing encoder whose header documents a marker for
+// NaN coordinates must RETURN that marker (no exception of any type, not even GeographicErr), and the
+// marker must decode back to NaN / UTMUPS::INVALID.  (OSGB.hpp:144, MGRS.hpp:228, Geohash.hpp:59,
+// GARS.hpp:70, Georef.hpp:72, UTMUPS.hpp:356; UTMUPS::Forward/Reverse/StandardZone and GeoCoords have
+// explicit NaN branches and fall under the general clause of the property.)
+void marker_case(Ctx& c, uint64_t idx) {
+  const double nan = std::numeric_limits<double>::quiet_NaN();
+  vh::Rng& r = c.rng;
+  hang::install(fileno(c.out), c.section, c.idx, c.seed);
+  auto run = [&](const char* fn, const char* pos, const std::string& want, bool ci, std::function<std::string()> enc,
+                 std::function<bool(const std::string&)> decodes_to_nan) {
+    std::string cls = std::string("nan-marker/") + fn, got, what; int rc = 0;
+    hang::g_site = fn;
+    try { got = enc(); }
+    catch (const GeographicErr& x) { rc = 1; what = x.what(); }
+    catch (const std::bad_alloc&) { rc = 2; }
+    catch (const std::exception& x) { rc = 3; what = x.what(); }
+    catch (...) { rc = 3; }
+    c.count(cls + "/" + pos, vh::hmixs(vh::hmix(idx, (uint64_t)rc), std::string(fn) + pos));
+    J d; d.str("nan_position", pos).str("what", what).str("got", got).str("documented_marker", want);
+    if (rc != 0) { c.viol(std::string("nanmarker:C13/exception-instead-of-marker/") + fn, cls, d); return; }
+    std::string g = got, w = want;
+    if (ci) { for (auto& ch : g) ch = (char)std::toupper((unsigned char)ch); for (auto& ch : w) ch = (char)std::toupper((unsigned char)ch); }
+    if (g != w) { c.viol(std::string("nanmarker:C13/wrong-marker/") + fn, cls, d); return; }
+    bool ok = false; rc = 0;
+    try { ok = decodes_to_nan(got); } catch (const std::exception& x) { rc = 1; d.str("decode_exception", x.what()); }
+    if (rc != 0 || !ok) c.viol(std::string("nanmarker:C13/marker-does-not-decode-to-nan/") + fn, cls, d);
+    else c.event("nan-marker/ok");
+  };
+  const int which = (int)(idx % 3);                      // NaN in first / second / both coordinate(s)
+  const char* pos = which == 0 ? "first" : which == 1 ? "second" : "both";
+  auto N1 = [&](double v) { return which != 1 ? nan : v; };
+  auto N2 = [&](double v) { return which != 0 ? nan : v; };
+  const double lat = r.uniform(-89, 89), lon = r.uniform(-179, 179), x = r.uniform(2.5e5, 7.5e5), y = r.uniform(1.2e6, 8.5e6);
+  const int zone = r.range(1, 60), prec = r.range(-1, 11); const bool northp = r.coin(), cp = r.coin();
+  // OSGB
+  run("OSGB::GridReference(x,y,prec)", pos, "INVALID", false,
+      [&] { std::string s = SSENT; OSGB::GridReference(N1(r.uniform(1e5, 6e5)), N2(r.uniform(1e5, 1.1e6)), r.range(0, 11), s); return s; },
+      [&](const std::string& s) { real a = 0, b = 0; int p = 0; OSGB::GridReference(s, a, b, p, cp); return std::isnan(a) && std::isnan(b); });
+  // MGRS (both overloads) and an INVALID zone
+  run("MGRS::Forward(zone,northp,x,y,prec)", pos, "INVALID", false,
+      [&] { std::string s = SSENT; MGRS::Forward(zone, northp, N1(x), N2(y), prec, s); return s; },
+      [&](const std::string& s) { int z = 0, p = 0; bool n = true; real a = 0, b = 0; MGRS::Reverse(s, z, n, a, b, p, cp); return z == UTMUPS::INVALID && std::isnan(a) && std::isnan(b); });
+  run("MGRS::Forward(zone,northp,x,y,lat,prec)", pos, "INVALID", false,
+      [&] { std::string s = SSENT; MGRS::Forward(zone, northp, N1(x), N2(y), lat, prec, s); return s; },
+      [&](const std::string& s) { int z = 0, p = 0; bool n = true; real a = 0, b = 0; MGRS::Reverse(s, z, n, a, b, p, cp); return z == UTMUPS::INVALID && std::isnan(a) && std::isnan(b); });
+  run("MGRS::Forward(INVALID zone)", "zone", "INVALID", false,
+      [&] { std::string s = SSENT; MGRS::Forward(UTMUPS::INVALID, northp, x, y, prec, s); return s; },
+      [&](const std::string& s) { int z = 0, p = 0; bool n = true; real a = 0, b = 0; MGRS::Reverse(s, z, n, a, b, p, cp); return z == UTMUPS::INVALID && std::isnan(a); });
+  // Geohash / GARS / Georef
+  run("Geohash::Forward", pos, "invalid", false,
+      [&] { std::string s = SSENT; Geohash::Forward(N1(lat), N2(lon), r.range(0, 18), s); return s; },
+      [&](const std::string& s) { real a = 0, b = 0; int l = 0; Geohash::Reverse(s, a, b, l, cp); return std::isnan(a) && std::isnan(b); });
+  run("GARS::Forward", pos, "INVALID", false,
+      [&] { std::string s = SSENT; GARS::Forward(N1(lat), N2(lon), r.range(0, 2), s); return s; },
+      [&](const std::string& s) { real a = 0, b = 0; int l = 0; GARS::Reverse(s, a, b, l, cp); return std::isnan(a) && std::isnan(b); });
+  run("Georef::Forward", pos, "INVALID", false,
+      [&] { std::string s = SSENT; Georef::Forward(N1(lat), N2(lon), prec, s); return s; },
+      [&](const std::string& s) { real a = 0, b = 0; int l = 0; Georef::Reverse(s, a, b, l, cp); return std::isnan(a) && std::isnan(b); });
+  // UTMUPS
+  run("UTMUPS::EncodeZone(INVALID)", "zone", cp ? "inv" : "invalid", false,
+      [&] { return UTMUPS::EncodeZone(UTMUPS::INVALID, northp, cp); },
+      [&](const std::string& s) { int z = 0; bool n = true; UTMUPS::DecodeZone(s, z, n); return z == UTMUPS::INVALID; });
+  run("UTMUPS::Forward", pos, "INVALID-ZONE-AND-NAN", false,
+      [&] { int z = 0; bool n; real a = 0, b = 0, g = 0, k = 0; UTMUPS::Forward(N1(lat), N2(lon), z, n, a, b, g, k, r.coin() ? UTMUPS::STANDARD : UTMUPS::UTM, r.coin());
+            return std::string(z == UTMUPS::INVALID && std::isnan(a) && std::isnan(b) && std::isnan(g) && std::isnan(k) ? "INVALID-ZONE-AND-NAN" : "zone " + std::to_string(z) + " x " + vh::jnum(a)); },
+      [&](const std::string&) { return UTMUPS::StandardZone(N1(lat), N2(lon)) == UTMUPS::INVALID; });
+  run("UTMUPS::Reverse", pos, "NAN", false,
+      [&] { real a = 0, b = 0, g = 0, k = 0; UTMUPS::Reverse(zone, northp, N1(x), N2(y), a, b, g, k, r.coin());
+            return std::string(std::isnan(a) && std::isnan(b) && std::isnan(g) && std::isnan(k) ? "NAN" : "lat " + vh::jnum(a)); },
+      [&](const std::string&) { real a = 0, b = 0; UTMUPS::Reverse(UTMUPS::INVALID, northp, x, y, a, b); return std::isnan(a) && std::isnan(b); });
+  // GeoCoords built from NaN coordinates
+  run("GeoCoords(lat,lon)::MGRSRepresentation", pos, "INVALID", false,
+      [&] { GeoCoords g(N1(lat), N2(lon)); return g.MGRSRepresentation(r.range(-1, 5)); },
+      [&](const std::string& s) { GeoCoords g(s); return g.Zone() == UTMUPS::INVALID && std::isnan(g.Latitude()) && std::isnan(g.Easting()); });
+  run("GeoCoords(lat,lon)::Zone", pos, "INVALID", false,
+      [&] { GeoCoords g(N1(lat), N2(lon)); return std::string(g.Zone() == UTMUPS::INVALID && std::isnan(g.Easting()) && std::isnan(g.Northing()) ? "INVALID" : "zone " + std::to_string(g.Zone())); },
+      [&](const std::string&) { GeoCoords g(N1(lat), N2(lon)); std::string t = g.GeoRepresentation(3); for (auto& ch : t) ch = (char)std::tolower((unsigned char)ch); return t.find("nan") != std::string::npos; });
+  // DMS
+  run("DMS::Encode", "angle", "nan", false,
+      [&] { return DMS::Encode(nan, (unsigned)r.range(0, 8), r.coin() ? DMS::LATITUDE : DMS::NONE); },
+      [&](const std::string& s) { DMS::flag f; return std::isnan(DMS::Decode(s, f)); });
 }
 
 std::vector<std::pair<int, int>> g_pairs;                 // (entry, arg)
@@ -258,6 +344,7 @@ int main(int argc, char** argv) {
   S.push_back({"nan_propagation", g_pairs.size() * 12, g_pairs.size() * 300, true, nan_case, 4});
   S.push_back({"special_values", g_triples.size() * 1, g_triples.size() * 12, true, special_case, 4});
   S.push_back({"special_multi", 60000, 3000000, true, multi_case, 4});
+  S.push_back({"nan_marker", 3000, 150000, true, marker_case, 4});
   S.push_back({"throw_outputs", g_bad.size() * 6, g_bad.size() * 60, true, bad_case, 4});
   if (argc > 1 && std::string(argv[1]) == "--registry") {
     std::printf("entries %zu pairs %zu triples %zu bad %zu ctors %llu\n", R.size(), g_pairs.size(), g_triples.size(), g_bad.size(), (unsigned long long)ctor_matrix_size());
